@@ -15,6 +15,7 @@ import time
 HERE = os.path.dirname(os.path.dirname(os.path.abspath(__file__)))
 REPO = os.environ.get("VERIF_REPO", "/repo")
 REPLAY_PY = "/venv/bin/python"
+MAX_REPLAYS = 12
 
 GLOBAL_ASSUMPTIONS = [
     "A1 Python int is mathematical; bit operators encoded via div/mod by powers of two; bit_length valid for |v|<2^64",
@@ -149,6 +150,7 @@ def main(argv=None):
 
     known = _known()
     violations, knowns, undecided, crashes, bounded = [], [], [], [], []
+    unconfirmed = []
     discharged = []
     for r in results:
         s = r["status"]
@@ -167,29 +169,43 @@ def main(argv=None):
             else:
                 violations.append(r)
 
-    # replay unlisted failures on the real code
+    # replay unlisted failures on the real code (at most MAX_REPLAYS are executed;
+    # the rest are reported with their replay script attached but not run)
     rdir = os.path.join(HERE, "replays", prop)
     lines = []
+    todo = [r for r in violations if r.get("replay") and r["replay"].get("script")][:MAX_REPLAYS]
+    if todo:
+        from concurrent.futures import ThreadPoolExecutor
+        with ThreadPoolExecutor(max_workers=8) as ex:
+            for r, (confirmed, out) in zip(todo, ex.map(lambda r: run_replay(r["replay"]["script"]), todo)):
+                r["replay"]["confirmed"] = confirmed
+                r["replay"]["output"] = out
     for r in violations:
         os.makedirs(rdir, exist_ok=True)
         path = os.path.join(rdir, _safe(r["id"]) + ".json")
-        confirmed, out = (False, "")
-        if r.get("replay") and r["replay"].get("script"):
-            confirmed, out = run_replay(r["replay"]["script"])
-            r["replay"]["confirmed"] = confirmed
-            r["replay"]["output"] = out
+        rp = r.get("replay") or {}
         r["verifier_output"] = dict(backend=r.get("backend"), model=r.get("model"), vc=r.get("vc"), detail=r.get("detail"))
         json.dump(r, open(path, "w"), indent=1, default=str)
         rel = os.path.relpath(path, HERE)
-        if confirmed:
+        if rp.get("confirmed"):
             lines.append(f"VIOLATION property={prop} replay={rel}")
+        elif "confirmed" in rp:
+            # a counter-model was produced but the real code does not misbehave on it:
+            # contract or proxy layer suspect -> undecided, never a violation (DESIGN 2.9)
+            unconfirmed.append(r)
+        elif rp.get("script"):
+            lines.append(f"VIOLATION property={prop} replay={rel} obligation={r['id']} replay-not-executed(cap)")
         else:
             lines.append(f"VIOLATION property={prop} replay={rel} obligation={r['id']} no-failing-input-found")
 
     for k, r in knowns:
         print(f"KNOWN-FINDING: property={prop} {r['id']} {k.get('what', '')}")
+    for r in unconfirmed:
+        violations.remove(r)
+        r["detail"] = "counter-model did not reproduce on the real code (contract or encoding suspect): " + str(r.get("detail"))
+        undecided.append(r)
     for r in undecided:
-        print(f"UNDECIDED property={prop} obligation={r['id']} ({r['detail'][:200]})")
+        print(f"UNDECIDED property={prop} obligation={r['id']} ({str(r['detail'])[:200]})")
     for r in crashes:
         print(f"CHECKER-FAULT property={prop} obligation={r['id']}\n{r['detail'][:1500]}")
     for ln in lines:
